@@ -105,6 +105,20 @@ theorem c25_history (c : Cfg) (s : State) (A : List Nat) (h : Reach c s A) :
   have h2 := returned_free hw
   rw [h1] at h2; cases h2
 
+-- OBLIGATION c25_exclusive : replace and clear share the exclusive method replace: at most one of them executes per cycle; attempted together exactly one executes (the one with scheduling priority) and the mask becomes its value (the replace argument, resp. init); the arbitrated input never carries both
+theorem c25_exclusive (c : Cfg) (cf : Bool) (s : State) (i : In) :
+    ¬ ((stepP c cf s i).2.replace = true ∧ (stepP c cf s i).2.clear = true) ∧
+    (∀ m, i.replace = some m → i.clear = true →
+      (stepP c cf s i).2.clear = cf ∧ (stepP c cf s i).2.replace = !cf ∧
+      (stepP c cf s i).1.mask = if cf then c.init else m) ∧
+    (¬ (i.replace.isSome = true ∧ i.clear = true) → stepP c cf s i = step c s i) := by
+  refine ⟨?_, ?_, ?_⟩
+  · cases hr : i.replace <;> cases hc : i.clear <;> cases cf <;> simp [stepP, arbitrate, step, hr, hc]
+  · intro m hr hc
+    cases cf <;> simp [stepP, arbitrate, step, hr, hc]
+  · intro h
+    cases hr : i.replace <;> cases hc : i.clear <;> simp_all [stepP, arbitrate]
+
 /-- non-vacuity: entries = 3, two alloc ways, one free way, init = all free.  Cycle 1 hands out 0 and 1;
     cycle 2 frees 0 while allocating 2; the resulting state is reachable, identifier 1 and 2 are booked
     as allocated, and the next alloc returns 0 only (second way not ready). -/
@@ -145,3 +159,4 @@ end TxV.PEAllocator
 #print axioms TxV.PEAllocator.c25_replace_clear
 #print axioms TxV.PEAllocator.c25_update
 #print axioms TxV.PEAllocator.c25_history
+#print axioms TxV.PEAllocator.c25_exclusive
